@@ -314,6 +314,41 @@ func runC19(tier string) int {
 	if completedChars < maxChars || completedLex < maxLex {
 		r.NotExhaustive(fmt.Sprintf("completed chars<=%d of %d, lexemes<=%d of %d", completedChars, maxChars, completedLex, maxLex))
 	}
+	// (d) the size dimension: a token after K lines and after K characters (one- and two-byte) on its line, for every K
+	// up to a bound and around every power of two up to 2^17 (a narrow integer type for a line or column would show)
+	var ks []int
+	for k := 0; k <= 300; k++ {
+		ks = append(ks, k)
+	}
+	maxPow := 17
+	if tier == "thorough" {
+		maxPow = 21
+		for k := 301; k <= 5000; k++ {
+			ks = append(ks, k)
+		}
+	}
+	for p := 9; p <= maxPow; p++ {
+		ks = append(ks, 1<<p-1, 1<<p, 1<<p+1)
+	}
+	sizeDone := r.Parallel(uint64(len(ks))*4, func(w int, idx uint64) {
+		k := ks[idx/4]
+		var src string
+		switch idx % 4 {
+		case 0:
+			src = strings.Repeat("\n", k) + "abc 12 \"s\" é1"
+		case 1:
+			src = "x" + strings.Repeat(" ", k) + "abc 12 \"s\" é1\n  next"
+		case 2:
+			src = "\"" + strings.Repeat("é", k) + "\" abc 12 é1 # c\n `r\nw` z"
+		default:
+			src = strings.Repeat("# c\r\n", k) + "script(global) S { x(1) }"
+		}
+		r.Add("far_positions", 1)
+		c19Check(r, src, false)
+	})
+	if !sizeDone {
+		r.NotExhaustive("far positions not completed")
+	}
 	// (c) compiled output unchanged under layout changes (corpus of C16)
 	for _, prog := range c16Corpus {
 		toks := c16Parse(prog.text)
@@ -350,5 +385,5 @@ func runC19(tier string) int {
 		"gaps are taken between tokens as the lexer itself reports them; a string-type prefix and the quote after it are one lexical unit; the white space and comments between the parts of a multi-part string are inside one token",
 		"inputs on which the lexer panics are counted and left to C18")
 	return r.Finish(r.Get("evaluations"), r.Get("nontrivial"),
-		"(a) every string of <= N characters over 20 characters (letters incl. multi-byte, a multi-byte non-letter, ASCII and non-ASCII digits, x, -, quote, backtick, space, tab, LF, CR, #, /, =, !, (, :); (b) every sequence of <= M lexemes from a 65-lexeme alphabet (all keywords, identifiers, numbers incl. hex/negative/leading zero, strings, typed string, raw string, every operator and delimiter, illegal characters) in 5 layouts; each input: position oracle on every token, then every gap replaced by each of 11 separators (spaces, tab, LF, CRLF, blank line, # and // comments, runs of several comment lines with indentation) and re-lexed; (c) C16's corpus programs compiled under every single-gap layout change; non-trivial = >= 2 tokens and a line break or multi-byte character")
+		"(a) every string of <= N characters over 20 characters (letters incl. multi-byte, a multi-byte non-letter, ASCII and non-ASCII digits, x, -, quote, backtick, space, tab, LF, CR, #, /, =, !, (, :); (b) every sequence of <= M lexemes from a 65-lexeme alphabet (all keywords, identifiers, numbers incl. hex/negative/leading zero, strings, typed string, raw string, every operator and delimiter, illegal characters) in 5 layouts; each input: position oracle on every token, then every gap replaced by each of 11 separators (spaces, tab, LF, CRLF, blank line, # and // comments, runs of several comment lines with indentation) and re-lexed; (c) C16's corpus programs compiled under every single-gap layout change; (d) tokens after K lines / K one-byte / K two-byte characters for every K <= 300 (thorough 5000) and around every power of two up to 2^17 (thorough 2^21); non-trivial = >= 2 tokens and a line break or multi-byte character")
 }
